@@ -84,9 +84,9 @@ WORDS3 = all_words(3, ["a", "b"]) + [["z"], ["a", "z"]]
 
 def c08_p2(t: P2, p: int) -> bool:
     """
+    pre: pinned(p=p, h0=t[0], l0=t[1])
     pre: 0 <= p <= 2
     pre: cfg_canonical(t, p, 2, 2, 2)
-    pre: pinned(p=p, h0=t[0], l0=t[1])
     post: _
     """
     prods = enc.decode_cfg(t, p, 2, 2, 2)
@@ -95,9 +95,9 @@ def c08_p2(t: P2, p: int) -> bool:
 
 def c08_p3(t: P3, p: int) -> bool:
     """
+    pre: pinned(h0=t[0], l0=t[1], s0=t[2], h1=t[4])
     pre: p == 3
     pre: cfg_canonical(t, p, 2, 2, 2)
-    pre: pinned(h0=t[0], l0=t[1], s0=t[2], h1=t[4])
     post: _
     """
     prods = enc.decode_cfg(t, p, 2, 2, 2)
@@ -106,10 +106,10 @@ def c08_p3(t: P3, p: int) -> bool:
 
 def c08_b3(t: P2B3, p: int) -> bool:
     """
+    pre: pinned(p=p, h0=t[0], s0=t[2], s1=t[3])
     pre: 1 <= p <= 2
     pre: cfg_canonical(t, p, 2, 2, 3)
     pre: t[1] == 3
-    pre: pinned(p=p, h0=t[0], s0=t[2], s1=t[3])
     post: _
     """
     prods = enc.decode_cfg(t, p, 2, 2, 3)
@@ -118,10 +118,10 @@ def c08_b3(t: P2B3, p: int) -> bool:
 
 def c08_word(t: P2, p: int, w: Tuple[int, int, int], wlen: int) -> bool:
     """
+    pre: pinned(p=p, h0=t[0], l0=t[1], wlen=wlen)
     pre: 1 <= p <= 2 and 0 <= wlen <= 3
     pre: cfg_canonical(t, p, 2, 2, 2)
     pre: all(0 <= w[i] < 3 and (i < wlen or w[i] == 0) for i in range(3))
-    pre: pinned(p=p, h0=t[0], l0=t[1], wlen=wlen)
     post: _
     """
     prods = enc.decode_cfg(t, p, 2, 2, 2)
@@ -131,8 +131,8 @@ def c08_word(t: P2, p: int, w: Tuple[int, int, int], wlen: int) -> bool:
 
 def c08_chain(sd: bool, aa: bool, bmask: int, cmask: int) -> bool:
     """
-    pre: 0 <= bmask < 16 and 0 <= cmask < 8
     pre: pinned(sd=sd, aa=aa, bmask=bmask)
+    pre: 0 <= bmask < 16 and 0 <= cmask < 8
     post: _
     """
     from vlib.conds import chain
@@ -156,9 +156,9 @@ def _chain_oracle(args, obs):
 
 def c08_declared(t: P2, p: int, extra: int) -> bool:
     """
+    pre: pinned(p=p, extra=extra)
     pre: 0 <= p <= 1 and 0 <= extra < 4
     pre: cfg_canonical(t, p, 2, 2, 2)
-    pre: pinned(p=p, extra=extra)
     post: _
     """
     raw = (t, p, extra)
